@@ -17,7 +17,8 @@ RULE = ("case = (expression tree of size <= 7 over + - * % integer/real powers, 
         "evaluation point on a grid inside the smooth domain; scalar / vector / multi-parameter); evaluated on numpy and torch(cpu) and compared with exact dual-number "
         "partials. Distinct = distinct (function text, form, point); non-trivial = a gradient was returned by at least one backend and compared.")
 ASSUMPTIONS = ["tolerances: numeric path violation above 1e-4 relative (1e-6 absolute), autograd and cross-backend above 1e-3 relative (1e-4 absolute); the band down to the property's figures is reported as near-tolerance only",
-               "points are kept inside the smooth domain (positive components, moderate magnitudes)"]
+               "points are kept inside the smooth domain (positive components, moderate magnitudes)",
+               "torch autograd runs in float32: generated trees are compared within 4e-3 relative (2e-4 absolute), numeric NumPy derivatives within 1e-4 (1e-6)"]
 MIN_COUNTS = {"quick": {"nontrivial": 1200, "gradients_compared_numpy": 1200, "gradients_compared_torch": 1000, "cross_backend_compared": 900},
               "thorough": {"nontrivial": 25000, "gradients_compared_numpy": 25000, "gradients_compared_torch": 20000, "cross_backend_compared": 18000}}
 CASE_TIMEOUT = 300
@@ -515,7 +516,9 @@ def run_case(ctx, case):
             cnt["setup_errors_" + name] = 1
             continue
         autograd = (name == "torch" and case["form"] in ("ag", "multi", "jac"))
-        rel, ab = (1e-3, 1e-4) if autograd else (1e-4, 1e-6)
+        # torch differentiates in float32: a sum of terms that partly cancel loses a few more digits than one rounding, so the generated
+        # (arbitrarily conditioned) trees are accepted within 4e-3 relative there; the closed-form families keep 1e-3
+        rel, ab = ((4e-3, 2e-4) if case["form"] in ("ag", "multi") else (1e-3, 1e-4)) if autograd else (1e-4, 1e-6)
         if name == "torch" and not autograd:
             rel, ab = 2e-3, 2e-4          # numeric differentiation evaluated through float32 tensors
         engine = "autograd" if autograd else "numeric"
@@ -537,7 +540,7 @@ def run_case(ctx, case):
             cnt["near_tolerance_" + name] = 1
     if out.get("numpy", ("",))[0] == "ok" and out.get("torch", ("",))[0] == "ok":
         cnt["cross_backend_compared"] = 1
-        d, worst = _cmp(out["numpy"][1], out["torch"][1], 2e-3, 2e-4)
+        d, worst = _cmp(out["numpy"][1], out["torch"][1], 5e-3 if case["form"] in ("ag", "multi") else 2e-3, 2e-4)
         if d and not res["violations"]:
             res["violations"].append({"sig": "%s|cross-backend|%s|ops:%s" % (case["form"], d, "+".join(sorted(ops))),
                                       "what": "%s: numpy %s vs torch %s" % (expr, show["numpy"], show["torch"]), "detail": show})
